@@ -345,7 +345,7 @@ var vmSentinels = []struct {
 }{
 	{"Bounds", bytecode.ErrBounds}, {"IndexValue", bytecode.ErrIndexValue}, {"MapKey", bytecode.ErrMapKey},
 	{"Slice", bytecode.ErrSlice}, {"BadRepetition", bytecode.ErrBadRepetition},
-	{"DivideByZero", bytecode.ErrDivideByZero}, {"StackOverflow", bytecode.ErrStackOverflow},
+	{"DivideByZero", bytecode.ErrDivideByZero}, {"StackOverflow", bytecode.ErrStackOverflow}, {"RangeValue", bytecode.ErrRangeValue},
 }
 
 type c16VM struct {
